@@ -66,6 +66,25 @@ def load_se():
     return se
 
 
+_fresh_code = None
+
+
+def fresh_se():
+    """A new, pristine instance of the module under test (its own classes, its own class- and module-level
+    state): what a freshly started process would see. Executing the compiled module body takes ~1 ms."""
+    global _fresh_code
+    import types
+
+    load_se()
+    if _fresh_code is None:
+        with open(SE_FILE) as f:
+            _fresh_code = compile(f.read(), SE_FILE, "exec")
+    m = types.ModuleType("svgelements_pristine")
+    m.__file__ = SE_FILE
+    exec(_fresh_code, m.__dict__)
+    return m
+
+
 def code_fingerprint():
     with open(SE_FILE, "rb") as f:
         return hashlib.sha256(f.read()).hexdigest()
